@@ -426,6 +426,29 @@ def deep_cascade(ctx, depth, leftover=None):
     ctx.mon("C09.direct.deep_cascade")
 
 
+def copy_onto_a_name_with_its_own_block(ctx, stmts, T, parts, exp):
+    """The same file with `CopyDecay X Y` in front, X and Y both with their own Decay block (X no source of anything): X's table is its block - for the flat
+    queries and just the same for the chains of X and of every mother above it."""
+    blocks = sorted({st["m"] for st in stmts if st["k"] == "Decay"})
+    cds = {st["name"] for st in stmts if st["k"] == "CDecay"}
+    conj = L.file_conj(exp["cc"])
+    used = {conj(n) for n in cds} | {st["b"] for st in stmts if st["k"] == "CopyDecay"} | cds
+    free = [b for b in blocks if b not in used and b in T]
+    if len(blocks) < 2 or not free:
+        return
+    x = ctx.rng.choice(free)
+    y = ctx.rng.choice([b for b in blocks if b != x])
+    text2 = L.render([{"k": "CopyDecay", "a": x, "b": y}, *stmts])
+    wit = {"kind": "generated", "text": text2, "copy_onto_existing_block": [x, y]}
+    ok, res = ctx.guard("parse", wit, snapshot.make_parser, text2)
+    if not ok:
+        return
+    ctx.hit("copydecay-onto-a-name-with-its-own-block")
+    above = [m for m in parts if m != x and any(x in ln["fs"] for ln in T[m])][:2]
+    for m in [x, *above]:
+        check(ctx, res[0], T, m, [], "list", wit, "gen", exp["aliases"])
+
+
 def run(ctx):
     contracts.arm("parser_chains")
     deep_cascade(ctx, ctx.rng.choice([120, 150, 180]))
@@ -436,6 +459,8 @@ def run(ctx):
         if exp.get("derived_table_used_as_daughter"):
             ctx.hit("mother-made-by-CDecay-or-CopyDecay-used-as-daughter")
         run_text(ctx, stmts, T, parts, exp)
+        if _ % 4 == 1:
+            copy_onto_a_name_with_its_own_block(ctx, stmts, T, parts, exp)
         if len(ctx.violations) >= ctx.max_violations:
             return
     run_corpus(ctx)
